@@ -20,7 +20,13 @@ import (
 //	Q Close the queue  F WaitUntilFinished
 const opsAlphabet = "AOPWRSTUDXCBQF"
 
-func runOps(kp kindPair, ops string) []vrt.Violation {
+// runOps2 is runOps on a worker with two bound queues (the second of kind q2k): lower-case a / x submit to / purge the
+// second queue, G binds a third queue (of the first one's kind) late and submits a job through it.
+func runOps2(kp kindPair, q2k QK, ops string) []vrt.Violation { return runOpsX(kp, q2k, true, ops) }
+
+func runOps(kp kindPair, ops string) []vrt.Violation { return runOpsX(kp, Fifo, false, ops) }
+
+func runOpsX(kp kindPair, q2k QK, two bool, ops string) []vrt.Violation {
 	h := NewH()
 	h.Shape = Gated
 	h.CrashProp, h.HangProp = "C03", "C03"
@@ -29,6 +35,10 @@ func runOps(kp kindPair, ops string) []vrt.Violation {
 	x = vrt.Run(nil, nil, func(sc *vrt.Sched) { sc.Monitor = h.monitor }, func() {
 		w := h.NewWorker(kp.W, 2)
 		q := w.Bind(kp.Q, nil)
+		var q2, q3 *Q
+		if two {
+			q2 = w.Bind(q2k, nil)
+		}
 		tag := 0
 		waitOn := func(j *JobRec) {
 			if !j.Accepted {
@@ -52,6 +62,25 @@ func runOps(kp kindPair, ops string) []vrt.Violation {
 					q.Add(tag, AddOpt{Prio: tag % 2})
 				} else {
 					waitOn(q.Add(tag, AddOpt{Prio: tag % 2}))
+				}
+				tag++
+			case 'a':
+				if q2k.IsAdapter() {
+					q2.Add(tag, AddOpt{Prio: tag % 2})
+				} else {
+					waitOn(q2.Add(tag, AddOpt{Prio: tag % 2}))
+				}
+				tag++
+			case 'x':
+				go func() { q2.Purge() }()
+			case 'G':
+				if q3 == nil {
+					q3 = w.Bind(kp.Q, nil)
+				}
+				if kp.Q.IsAdapter() {
+					q3.Add(tag, AddOpt{})
+				} else {
+					waitOn(q3.Add(tag, AddOpt{}))
 				}
 				tag++
 			case 'B':
@@ -121,6 +150,10 @@ func runOps(kp kindPair, ops string) []vrt.Violation {
 }
 
 func enumOps(r *SeqReport, kp kindPair, alphabet string, depth int, prefix string) {
+	enumOpsWith(r, kp.String(), func(s string) []vrt.Violation { return runOps(kp, s) }, alphabet, depth, prefix)
+}
+
+func enumOpsWith(r *SeqReport, label string, run func(string) []vrt.Violation, alphabet string, depth int, prefix string) {
 	seen := map[string]bool{}
 	var rec func(s string)
 	rec = func(s string) {
@@ -128,8 +161,8 @@ func enumOps(r *SeqReport, kp kindPair, alphabet string, depth int, prefix strin
 			r.Traces++
 			r.States++
 			r.Transitions += int64(len(s))
-			vs := runOps(kp, s)
-			cs := fmt.Sprintf("%s ops=%s", kp, s)
+			vs := run(s)
+			cs := fmt.Sprintf("%s ops=%s", label, s)
 			for _, v := range vs {
 				if v.Prop == "engine" {
 					r.Notes = append(r.Notes, "ENGINE: "+v.Detail+" ("+cs+")")
@@ -160,6 +193,54 @@ func enumOps(r *SeqReport, kp kindPair, alphabet string, depth int, prefix strin
 
 var opsProps = []string{"C01", "C02", "C03", "C04", "C05", "C06", "C07", "C08", "C09", "C10", "C16", "C17", "C18"}
 
+const opsAlphabet2 = "AaOPWRSTUDXxCQFG"
+
+func init() {
+	type mq struct {
+		kp  kindPair
+		q2k QK
+	}
+	for _, m := range []mq{{kindPair{Plain, Fifo}, Prio}, {kindPair{ResW, Prio}, Fifo}, {kindPair{Plain, Fifo}, Pers}} {
+		m := m
+		label := fmt.Sprintf("%s+%s", m.kp, m.q2k)
+		props := append(append([]string{}, opsProps...), "C15")
+		if m.q2k.IsAdapter() {
+			props = append(props, "C11")
+		}
+		for i := 0; i < len(opsAlphabet2); i++ {
+			first := string(opsAlphabet2[i])
+			for _, d := range []int{4, 5} {
+				d := d
+				only := "quick"
+				if d == 5 {
+					only = "thorough"
+				}
+				Register(&Scenario{
+					Name: fmt.Sprintf("seq-ops2/%s/d%d/%s", label, d, first), Props: props, Seq: true, Only: only,
+					SeqRun: func(r *SeqReport) {
+						r.Exhaustive = true
+						enumOpsWith(r, label, func(s string) []vrt.Violation { return runOps2(m.kp, m.q2k, s) }, opsAlphabet2, d, first)
+						r.Notes = append(r.Notes, fmt.Sprintf("every sequence of %d API calls starting with %s over the alphabet %s on a worker with two bound queues (a third bound late by G), judged by the whole oracle suite", d, first, opsAlphabet2))
+					},
+				})
+			}
+		}
+	}
+}
+
+// opsPropsFor: on adapter-backed queues the suite also judges the acknowledgement clauses (C11) and, on the
+// distributed ones, the drain / notification clauses (C13).
+func opsPropsFor(kp kindPair) []string {
+	p := append([]string{}, opsProps...)
+	if kp.Q.IsAdapter() {
+		p = append(p, "C11")
+		if kp.Q == Dist || kp.Q == DistPrio {
+			p = append(p, "C13")
+		}
+	}
+	return p
+}
+
 // d6Props: the depth-6 enumeration of one worker kind (196 shards, 7.5 million sequences) is part of the thorough check
 // of a third of the properties each, to keep every single thorough check within tens of minutes.
 func d6Props(ki int) []string {
@@ -173,7 +254,7 @@ func d6Props(ki int) []string {
 }
 
 func init() {
-	for ki, kp := range []kindPair{{Plain, Fifo}, {ErrW, Prio}, {ResW, Fifo}} {
+	for ki, kp := range []kindPair{{Plain, Fifo}, {ErrW, Prio}, {ResW, Fifo}, {Plain, Pers}, {Plain, DistPrio}} {
 		ki, kp := ki, kp
 		// every sequence of the given length is a maximal one of its own (shorter ones are its prefixes, observed at
 		// the rest after each step)
@@ -186,7 +267,7 @@ func init() {
 					only = "thorough"
 				}
 				Register(&Scenario{
-					Name: fmt.Sprintf("seq-ops/%s/d%d/%s", kp, d, first), Props: opsProps, Seq: true, Only: only,
+					Name: fmt.Sprintf("seq-ops/%s/d%d/%s", kp, d, first), Props: opsPropsFor(kp), Seq: true, Only: only,
 					SeqRun: func(r *SeqReport) {
 						r.Exhaustive = true
 						enumOps(r, kp, opsAlphabet, d, first)
@@ -195,8 +276,8 @@ func init() {
 				})
 			}
 		}
-		// depth 6 in the thorough tier, one shard per two-call prefix
-		for i := 0; i < len(opsAlphabet); i++ {
+		// depth 6 in the thorough tier, one shard per two-call prefix (in-memory kinds)
+		for i := 0; i < len(opsAlphabet) && ki < 3; i++ {
 			for k := 0; k < len(opsAlphabet); k++ {
 				pre := string(opsAlphabet[i]) + string(opsAlphabet[k])
 				Register(&Scenario{
